@@ -46,7 +46,7 @@ ROOTMARK = '@ROOT@'   # absolute spellings: replaced by the project root when th
 
 # positions an import expression is put at / positions an include expression is put at
 IMPORT_POS = ['top', 'topsel', 'tuple', 'list', 'selectarm', 'func', 'map', 'filter', 'reduce', 'mapfunc', 'modbody', 'modlet', 'modout',
-              'modmap', 'letc', 'fail', 'fmtexpr']
+              'modmap', 'letc', 'fail', 'fmtexpr', 'fmtarg']
 INCLUDE_POS = [p for p in IMPORT_POS if p not in ('top', 'modlet', 'letc')]
 NOT_EAGER = ('letc', 'fail')
 EAGER_IMPORT_POS = [p for p in IMPORT_POS if p not in NOT_EAGER]
@@ -117,7 +117,7 @@ def resolve(importer, spell):
 
 def contribution(pos, s):
     return {'top': s, 'topsel': s, 'tuple': s, 'list': s, 'selectarm': s, 'func': 2 * s + 1, 'map': 2 * s + 1, 'filter': s, 'reduce': 2 * s + 3,
-            'mapfunc': s, 'modbody': 2 * s + 3, 'modlet': 2 * s + 3, 'modout': 2 * s + 3, 'modmap': s + 1, 'letc': 5, 'fmtexpr': s}[pos]
+            'mapfunc': s, 'modbody': 2 * s + 3, 'modlet': 2 * s + 3, 'modout': 2 * s + 3, 'modmap': s + 1, 'letc': 5, 'fmtexpr': s, 'fmtarg': s}[pos]
 
 
 def ident(path):
@@ -207,6 +207,8 @@ def render_edge(k, e):
         'fail': 'let e%(k)d = fail "FAILMSG[@]" %% (%(x)s);\n',
         # an expression embedded in a format template (parsed when the format expression is translated)
         'fmtexpr': 'let fs%(k)d = "@{%(xq)s + item}" %% 0;\nlet e%(k)d = int(fs%(k)d);\n',
+        # the ARGUMENT of an expression format (evaluated in the scope the format expression opens)
+        'fmtarg': 'let fa%(k)d = "@{item.0 + 0}" %% [%(x)s];\nlet e%(k)d = int(fa%(k)d);\n',
     }[e['pos']] % d
     if e['probe']:
         t += {'name': 'let w%(k)d = (import "%(p)s").name + "x";\n',
